@@ -1,2 +1,18 @@
 import TlxVerif.Props.C14
+#print axioms TlxVerif.C14.digestOfChunks_eq
+#print axioms TlxVerif.C14.chunking_independent
+#print axioms TlxVerif.C14.curlen_in_bounds
 #print axioms TlxVerif.C14.md5_tables
+#print axioms TlxVerif.C14.sha1_tables
+#print axioms TlxVerif.C14.sha256_tables
+#print axioms TlxVerif.C14.sha512_tables
+#print axioms TlxVerif.C14.hex_tables
+#print axioms TlxVerif.C14.md5_compress_eq
+#print axioms TlxVerif.C14.sha1_compress_eq
+#print axioms TlxVerif.C14.sha256_compress_eq
+#print axioms TlxVerif.C14.sha512_compress_eq
+#print axioms TlxVerif.C14.md5_correct
+#print axioms TlxVerif.C14.sha1_correct
+#print axioms TlxVerif.C14.sha256_correct
+#print axioms TlxVerif.C14.sha512_correct
+#print axioms TlxVerif.C14.padZeros_smallest
